@@ -81,18 +81,19 @@ CHECKS = {
 # what later rounds added to each check (appended to the level text)
 ADDED = {
  "C02": " A memcheck arm (valgrind --track-origins on about 480 in-vitro cases of the plain build, stack dirtied before each call) reports uninitialised reads, which the compiler sanitizers cannot see.",
- "C03": " Natural states include a stream listener that never accepts, repeated calls on sinks with bounded queues, a log file that has reached the caller's own file size limit (SIGXFSZ), a log file flock()ed by another process and a full descriptor table (0..2 free slots).",
- "C09": " Stress variants: NULL and {NULL} argument vectors mixed into every thread, 256 KiB thread stacks under the largest configurable limits, a socket sink whose sends all fail, long uid / program lists, and a bystander thread that never execs and watches its own descriptors, the process umask (read from /proc) and the working directory while the others log.",
+ "C03": " Natural states include a stream listener that never accepts, repeated calls on sinks with bounded queues, a log file that has reached the caller's own file size limit (SIGXFSZ), a log file flock()ed by another process and a full descriptor table (0..2 free slots), /proc/<pid>/cgroup replaced by a 12 KiB file (bind mount in the driver's namespace). Persistent faults on read and openat start at every position of the window in turn.",
+ "C09": " Stress variants: NULL and {NULL} argument vectors mixed into every thread, 256 KiB thread stacks under the largest configurable limits, a socket sink whose sends all fail, long uid / program lists, and a bystander thread that never execs and watches its own descriptors, the process umask (read from /proc) and the working directory while the others log; formats that drive data sources into their own error paths; a run whose threads all end up parked in a lock wait is a violation (threads-stuck).",
  "C04": " Includes a FIFO log file whose reader attaches late, dropped calls with over-long messages under error_logging=yes, and observed calls in a forked child after a priming call in the parent.",
- "C10": " Stop points also lie right before every I/O call the library issues (open, write, close, socket, send, flock, fopen, fclose). A storm arm keeps 4-8 threads logging (formats using the time, passwd/group, utmp and /proc sources; file, devlog, syslog outputs) while the main thread forks 60-200 times, with every openat/read/connect delayed by 10-30 ms under strace, plus bursts of short-lived processes whose forks land in the very first calls (lazy initialisation inside libc); every child makes one wrapped call and must finish; an unfinished child counts only if its own stack, printed from a signal handler, shows a lock wait.",
- "C12": " A third of the states live in an orphaned process tree (top re-parented to pid 1) whose root process carries a generated name (leading blanks/tabs, parentheses, status-key look-alikes); errno on entry is varied. timestamp_ms / timestamp_us are bracketed between two microsecond clock readings. A secure-execution arm starts a set-uid-root copy of the in-vitro driver from uid 12345 (AT_SECURE=1, ruid != euid) and checks the env / id sources there.",
+ "C10": " Stop points also lie right before every I/O call the library issues (open, write, close, socket, send, flock, fopen, fclose). A storm arm keeps 4-8 threads logging (formats using the time, passwd/group, utmp and /proc sources; file, devlog, syslog outputs) while the main thread forks 60-200 times, with every openat/read/connect delayed by 10-30 ms under strace, plus bursts of short-lived processes whose forks land in the very first calls (lazy initialisation inside libc); every child makes one wrapped call and must finish; an unfinished child counts only if its own stack, printed from a signal handler, shows a lock wait. A fork() that has to wait while a thread is stopped right before an I/O call of its log output is a violation too (fork-waits-for-log-sink).",
+ "C12": " A third of the states live in an orphaned process tree (top re-parented to pid 1) whose root process carries a generated name (leading blanks/tabs, parentheses, status-key look-alikes); errno on entry is varied. timestamp_ms / timestamp_us are bracketed between two microsecond clock readings. A secure-execution arm starts a set-uid-root copy of the in-vitro driver from uid 12345 (AT_SECURE=1, ruid != euid) and checks the env / id sources there. A lookup-fault arm (in vitro) asks the name sources with a full descriptor table and with passwd/group entries larger than the lookup buffer: an error text is accepted, a wrong name or the no-such-id placeholder is not.",
  "C13": " The probe also drives each registry's lookup-by-name functions with every name of the all-on build, each proper prefix, the empty name and extended/upper-case spellings (about 1 280 candidates per configuration): an absent name must be unknown, a present one must resolve to its own index. The end-to-end builds (one of them without devlog, the registry's first output) also run the reduced production library through snoopy.ini: every remaining output must receive the record when named, every remaining filter must decide as its name says.",
+ "C05": " Path templates also run under a lowered datasource_message_max_length with a source output longer than it, spread over pre-created directory levels (the template has its own fixed limit).",
  "C14": " The errno the caller holds on entry (0, ERANGE, EINVAL, EINTR, EOVERFLOW, ENOENT) is varied per case.",
- "C16": " Callers start with blocked / ignored signals (SIGPIPE among them) and a stale errno, and the first call of a run is judged as well (all but the heap). A fork arm on the controlled scheduler parks another thread at every stop point of a wrapped call, forks, and the child - allocator monitor loaded - must track its own thread only, keep no configuration string of the vanished threads after its own complete call, and free only live blocks (stop points include the instant right after every free() the library issues; the allocator monitor counts frees of blocks that are not live, in all arms).",
+ "C16": " Callers start with blocked / ignored signals (SIGPIPE among them) and a stale errno, and the first call of a run is judged as well (all but the heap). A fork arm on the controlled scheduler parks another thread at every stop point of a wrapped call, forks, and the child - allocator monitor loaded - must track its own thread only, keep no configuration string of the vanished threads after its own complete call, and free only live blocks (runs also start from an absent / unreadable / directory snoopy.ini; the lock depth of the calling thread is judged after the call has returned as well as at the real exec; formats drive data sources into their error paths; stop points include the instant right after every free() the library issues; the allocator monitor counts frees of blocks that are not live, in all arms).",
  "C17": " Three traced cases run on a tmpfs that fills up mid-record (short write, then ENOSPC): no truncation, no second attempt, bytes in front unchanged. A writer process dying in the stress arm is a violation.",
- "C18": " A third of the inputs come with a left-over ld.so.preload.snoopy-tmp of an earlier killed run (longer than the result, or very short); the alphabet (20 line kinds) includes entries and comments with % conversions; files of 10 KiB to 200 KiB (4 MiB in thorough) with the entry absent / first / middle / last.",
+ "C18": " A third of the inputs come with a left-over ld.so.preload.snoopy-tmp of an earlier killed run (longer than the result, or very short); the alphabet (20 line kinds) includes entries and comments with % conversions; files of 10 KiB to 200 KiB (4 MiB in thorough) with the entry absent / first / middle / last; a fifth of the commands is started without stdout / stderr / stdin, and for an eighth of the inputs ld.so.preload is a symbolic link.",
  "C19": " Same left-over temporary files and % lines as C18.",
- "C20": " Further arms: every scenario under RLIMIT_FSIZE of 0, 1, half and length-1 of the new content with SIGXFSZ ignored (short write) and fatal; and a history arm (run killed right before its rename leaves its temporary file, the file then gets shorter, the command runs again: the result must equal a run without that history); rename failing with EBUSY / EXDEV / EPERM followed by a kill before each of the remaining system calls (two faults).",
+ "C20": " Further arms: every scenario under RLIMIT_FSIZE of 0, 1, half and length-1 of the new content with SIGXFSZ ignored (short write) and fatal; and a history arm (run killed right before its rename leaves its temporary file, the file then gets shorter, the command runs again: the result must equal a run without that history); rename failing with EBUSY / EXDEV / EPERM followed by a kill before each of the remaining system calls (two faults); every injected non-write fault is repeated with the command started without stdout and without stderr.",
 }
 
 
